@@ -201,6 +201,26 @@ func c09Family(thorough bool) []*c09Case {
 			}
 		}
 	}
+	// an heir of a type that carries its own type table (the inherited properties refer to
+	// types only the ancestor knows, some of which have unnamed types of their own)
+	for _, r := range []string{"{ // {allOf: \"@t1\"}\n\t\"r\": 1\n}", "{\n\t\"x\": @h\n}", "{ // {allOf: \"@h\"}\n\t\"r\": 1\n}", "[\n\t@h,\n\t@t1\n]"} {
+		for _, t1 := range []string{"{\n\t\"f\": 5 // {type: \"@inner\"}\n}", "{\n\t\"f\": @inner\n}", "{\n\t\"f\": 5 // {or: [\"@inner\", \"string\"]}\n}", "{\n\t\"f\": 5 // {or: [{type: \"@inner\"}, {type: \"boolean\"}]}\n}"} {
+			for _, nest := range []map[string]map[string]string{
+				{"@t1": {"@inner": `5 // {or: [{type: "integer", min: 1}, {type: "string"}]}`}},
+				{"@t1": {"@inner": `5`}},
+				{"@t1": {"@inner": `5 // {type: "@deep"}`, "@deep": `5 // {or: [{type: "integer", min: 1}, {type: "string"}]}`}},
+				{"@t1": {"@inner": `@deep | @d2`, "@deep": `5`, "@d2": `"s"`}},
+			} {
+				for _, own := range []string{"", `5`} {
+					ts := map[string]string{"@t1": t1, "@h": "{ // {allOf: \"@t1\"}\n\t\"own\": true\n}"}
+					if own != "" {
+						ts["@inner"] = own
+					}
+					add("project", &project{Root: r, Types: ts, Nested: nest}, "")
+				}
+			}
+		}
+	}
 	for _, r := range []string{`@a`, "{\n\t\"k\": @b,\n\t\"m\": @c\n}", "{} // {allOf: [\"@a\", \"@b\"]}"} {
 		for _, a := range []string{"{\n\t\"k\": @b\n}", "{ // {allOf: \"@b\"}\n\t\"a\": 5 // {or: [{type: \"integer\"}, {type: \"@c\"}]}\n}", `@b | @c`} {
 			for _, b := range []string{"{\n\t\"kb\": @c\n}", "{\n\t\"kb\": 1, // {or: [{type: \"@c\"}, {type: \"integer\"}]}\n\t\"back\": @a // {optional: true}\n}"} {
